@@ -4,7 +4,7 @@
 From Coq Require Import List Arith Bool ZArith Lia.
 Import ListNotations.
 Require Import Verif.Model.C16_Rewrites.
-Open Scope Z_scope.
+Local Open Scope Z_scope.
 
 (* ================================================================== monad laws *)
 Lemma deq_refl {A} (m : den A) : deq m m. Proof. intro; reflexivity. Qed.
